@@ -124,7 +124,9 @@ def mutation_seriality(sim, req, rs, data):
             continue
         key = e.pos[0]
         n = e.fired_event
-        if key not in last_any or last_any[key][0] < n:
+        # an awaitable nobody waits for (abandoned by a task cancelled before its first step)
+        # is not work of the subtree any more
+        if e.awaited and (key not in last_any or last_any[key][0] < n):
             last_any[key] = (n, ("fire", e.label))
         if _present(data, e.pos):
             if key not in last_activity or last_activity[key][0] < n:
